@@ -30,7 +30,7 @@ enum { P_IRQ_IN_SCHEDULER, P_IRQ_IN_RUN, P_IRQ_IN_KILL, P_IRQ_IN_BODY, P_IRQ_BET
        P_IRQ_AFTER_FINAL_CHECK, P_IRQ_BEFORE_FINAL_CHECK, P_PROBE_PASS, P_PROBE_PASS_DISPATCHED,
        P_SEND_REFUSED_WAKEUP, P_EVENT_WHILE_HANDLER_RUNNING, P_OBLIGATION_DISCHARGED, P_KILL_RACED_REQUEST,
        P_QUIESCED, P_QUEUE_HEALTH_CHECKED, P_TIMER_FIRED, P_MODE_IRQ, P_MODE_THR, P_OVERSLEEP_CHECKED,
-       P_NESTED_SENDS_OVERLAP, P_THR_QUIET_SLEEP_VERDICT };
+       P_NESTED_SENDS_OVERLAP, P_THR_QUIET_SLEEP_VERDICT, P_LONG_MODE, P_OVER_256_EVENTS };
 static const char *const probe_names[] = {
 	"interrupt_inside_fibre_scheduler_next", "interrupt_inside_fibre_run", "interrupt_inside_fibre_kill",
 	"interrupt_inside_fibre_body", "interrupt_between_passes", "request_published_after_final_check",
@@ -39,11 +39,12 @@ static const char *const probe_names[] = {
 	"event_sent_while_handler_running", "wakeup_obligation_discharged", "kill_overlapped_request",
 	"system_quiesced", "queue_health_checked", "timer_fired", "mode_irq", "mode_threads",
 	"sleep_verdict_checked_against_timers", "nested_event_sends_overlapped",
-	"thread_mode_sleep_verdict_with_no_sender_active", NULL };
+	"thread_mode_sleep_verdict_with_no_sender_active", "long_lived_scenario",
+	"more_than_256_events_through_one_queue", NULL };
 
 #define NFIB 5
 enum { FE, FY, FS, FW1, FW2 };
-#define MAXEV 64
+#define MAXEV 1024
 
 typedef struct {
 	uint32_t id;
@@ -271,6 +272,8 @@ static void ctx_run_atomic(int x)
 }
 
 static int sends_in_flight;
+static bool long_mode;
+static uint32_t evdepth_override, calls_left;
 
 static void ctx_send_event(void)
 {
@@ -293,6 +296,8 @@ static void ctx_send_event(void)
 		return;
 	}
 	uint32_t id = n_events++;
+	if (id == 257)
+		sim_probe(P_OVER_256_EVENTS);
 	E[id].claim_inv = inv;
 	E[id].send_done = E[id].sent_ok = E[id].received = false;
 	evt_t v = { id, ~id, { id * 2654435761u, id ^ 0x5a5a5a5au } };
@@ -325,6 +330,8 @@ static void ctx_send_event(void)
 static void ctx_action(void)
 {
 	uint32_t k = sim_choose(5);
+	if (long_mode && k < 3 && sim_choose(4))
+		k = 3;	/* mostly events */
 	if (k >= 3)
 		ctx_send_event();
 	else
@@ -498,6 +505,11 @@ static void main_loop(bool probe_passes, uint32_t iters)
 			else if (op == 3)
 				main_run(FE);
 		}
+		if (mode == SIMRT_IRQ && calls_left && !simrt_irq_pending()) {
+			uint32_t n = calls_left > 32 ? 32 : calls_left;
+			calls_left -= n;
+			simrt_irq_plan(n, 1 + sim_choose(40));
+		}
 		uint32_t sw0 = simrt_switches();
 		pass_t p = do_pass();
 		classify_pub(&p);
@@ -517,7 +529,7 @@ static void main_loop(bool probe_passes, uint32_t iters)
 		}
 		if (mode == SIMRT_THR && senders_done == nsenders && p.dispatched < 0)
 			break;
-		if (mode == SIMRT_IRQ && !simrt_irq_pending() && p.dispatched < 0 && it > 4)
+		if (mode == SIMRT_IRQ && !simrt_irq_pending() && !calls_left && p.dispatched < 0 && it > 4)
 			break;
 	}
 }
@@ -525,7 +537,7 @@ static void main_loop(bool probe_passes, uint32_t iters)
 static void mainloop_ctx(void *arg)
 {
 	(void)arg;
-	main_loop(false, 400);
+	main_loop(false, long_mode ? 20000 : 400);
 }
 
 static void run(void)
@@ -536,6 +548,18 @@ static void run(void)
 	nfib = 3 + sim_choose(3);
 	evdepth = 1 + sim_choose(8);
 	uint32_t ncalls = 1 + sim_choose(24);
+	long_mode = sim_chance(1, 40);
+	if (long_mode) {
+		/* a long-lived system: hundreds of events through an event queue whose depth does not
+		 * divide 256, so 8-bit cursors and counters inside the queues wrap */
+		static const uint8_t odd[] = { 3, 5, 6, 7 };
+		evdepth_override = odd[sim_choose(4)];
+		calls_left = 280 + sim_choose(400);
+		sim_probe(P_LONG_MODE);
+	} else {
+		evdepth_override = 0;
+		calls_left = 0;
+	}
 	uint32_t burst = sim_choose(3) == 0 ? 6 + sim_choose(5) : 0;	/* back-to-back interrupts that fill the wake-up queue */
 	uint32_t max_gap = 1 + sim_choose(sim_choose(3) ? 16 : 120);
 	static const uint32_t bases[] = { 0, 1000, 0x7ffffff0u, 0xfffffff0u, 0xffffff00u };
@@ -545,6 +569,8 @@ static void run(void)
 	uint32_t sparam = strat == SIMRT_STRAT_PCT ? 1 + sim_choose(4) :
 			  strat == SIMRT_STRAT_KPREEMPT ? 1 + sim_choose(3) : 1 + sim_choose(4);
 	bool probe_passes = c03 || sim_chance(1, 4);
+	if (evdepth_override)
+		evdepth = evdepth_override;
 	sim_ev("hdr", mode, nfib * 100 + evdepth, ncalls);
 	sim_clock = now;
 
@@ -575,7 +601,7 @@ static void run(void)
 	}
 	simrt_bounds(true);
 	simrt_libdata_points(true);
-	sim_budget(3000000);
+	sim_budget(long_mode ? 60000000 : 3000000);
 	B[FY].yields_left = 2;
 	for (int x = 0; x < nfib; x++) {
 		fibre_run(fib[x]);
@@ -592,7 +618,7 @@ static void run(void)
 			simrt_irq_set_gap(i, 0);
 		for (uint32_t i = burst; burst && i < ncalls; i++)
 			simrt_irq_set_gap(i, sim_choose(10));
-		main_loop(probe_passes, 120);
+		main_loop(probe_passes, long_mode ? 4000 : 120);
 		simrt_irq_mask(true);
 	} else {
 		sim_probe(P_MODE_THR);
@@ -606,6 +632,9 @@ static void run(void)
 			sender_actions[s] = 0;
 		for (uint32_t i = 0; i < ncalls; i++)
 			sender_actions[sim_choose(nsenders)]++;
+		if (long_mode)
+			for (uint32_t s = 0; s < nsenders; s++)
+				sender_actions[s] += calls_left / nsenders;
 		simrt_spawn(mainloop_ctx, NULL);
 		for (uint32_t s = 0; s < nsenders; s++)
 			simrt_spawn(sender_ctx, (void *)(uintptr_t)s);
